@@ -364,7 +364,7 @@ func c06Fixed() ([]*zr.Program, []map[string]Val, []string) {
 }
 
 func checkC06(c *Ctx) {
-	c.rule = "(1) symbol-table histories: all sequences of begin/end-scope, declare, declare-const, assign, lookup over 3 names up to length 4 (quick) / 5 (thorough) plus random histories up to length 200, against a stack-of-maps model; (2) fixed probe families: for every block kind (如果/否则/再如/每当/遍历) use after block end, use before declaration, shadowing and its end, assignment to outer, same-block redeclaration (43), constants (44); for method locals/parameters/得到 names/method and type names/输入: visibility after return (normal and through a handled exception - 12 ways of raising it x {directly, inside nested blocks, inside a loop, one call deeper}: callee names gone, caller's block still rejects redeclaration, names of blocks ending afterwards gone) and reassignment; the 7 predefined names x {assign, declare, declare const, declare in block, as parameter, as loop variable, as 得到 name}; old value intact after a rejected assignment (seen through the handler); (3) random programs with inner-block shadowing; quiescent invariant after each successful run (scope depth 0, call stack empty). distinct_nontrivial = distinct histories / (family, outcome kind)"
+	c.rule = "(1) symbol-table histories: all sequences of begin/end-scope, declare, declare-const, assign, lookup over 3 names up to length 4 (quick) / 5 (thorough) plus random histories up to length 200, against a stack-of-maps model; (2) fixed probe families: for every block kind (如果/否则/再如/每当/遍历) use after block end, use before declaration, shadowing and its end, assignment to outer, same-block redeclaration (43), constants (44); for method locals/parameters/得到 names/method and type names/输入: visibility after return (normal and through a handled exception - 12 ways of raising it x {directly, inside nested blocks, inside a loop, one call deeper}: callee names gone, caller's block still rejects redeclaration, names of blocks ending afterwards gone) and reassignment; the 7 predefined names x {assign, declare, declare const, declare in block, as parameter, as loop variable, as 得到 name}; old value intact after a rejected assignment (seen through the handler); (3) random programs with inner-block shadowing; quiescent invariant after each successful run (scope depth 0, call stack empty). hand-written programs with a constructor declared in a method body / branch / loop body for a type of an enclosing block (rejected or gone afterwards; with the type in the same block it works); distinct_nontrivial = distinct histories / (family, outcome kind)"
 	c.assumptions = []string{"declaring a local with the name of a parameter / loop variable / definition of the same body is unspecified and not generated", "imports are probed by C15"}
 	checkScopeAPI(c)
 	progs, ins, shapes := c06Fixed()
